@@ -127,6 +127,15 @@ def select(p, a, b):
     return where(p, a, b)
 
 
+def select_n(which, *cases):
+    Assumed.note("jax.lax.select_n(which, c0, c1) = c1 where which else c0 (boolean predicate: two cases)")
+    if len(cases) != 2:
+        raise EngineLimit("select_n with %d cases" % len(cases))
+    from .jnp import where
+
+    return where(which, cases[1], cases[0])
+
+
 def cond(p, tf, ff, *ops):
     Assumed.note("jax.lax.cond(p, tf, ff, *ops) = tf(*ops) if p else ff(*ops) (both branches traced)")
     if isinstance(p, bool):
